@@ -106,9 +106,10 @@ type PartyOpts struct {
 	Frag       int  // fragment size, 0 = off
 	NoErrH     bool // leave the error-message handler unset
 	NoHandlers bool
-	ShortKeys  int  // this many of the party's first D-H exponents are ones whose public value has a zero top byte
-	ShortFrom  int  // which half of ShortExps this party uses (0 or 1; the parties of one world use different halves)
-	SysRand    bool // leave Conversation.Rand unset: the library then uses the operating system's generator
+	ShortKeys  int                 // this many of the party's first D-H exponents are ones whose public value has a zero top byte
+	ShortFrom  int                 // which half of ShortExps this party uses (0 or 1; the parties of one world use different halves)
+	KeyObj     *otr3.DSAPrivateKey // use this very key object (an account's key is one object shared by all its conversations)
+	SysRand    bool                // leave Conversation.Rand unset: the library then uses the operating system's generator
 }
 
 // NewParty builds a conversation with tracked randomness and recorders.
@@ -122,7 +123,10 @@ func NewParty(o PartyOpts) *Party {
 		c.Rand = p.R
 	}
 	ApplyPolicies(c, o.Pol)
-	if o.KeyI >= 0 {
+	if o.KeyObj != nil {
+		p.Key = o.KeyObj
+		c.SetOurKeys([]otr3.PrivateKey{p.Key})
+	} else if o.KeyI >= 0 {
 		p.Key = PoolKey(o.KeyI)
 		c.SetOurKeys([]otr3.PrivateKey{p.Key})
 	}
